@@ -64,7 +64,7 @@ CONFIG["C05"] = dict(
 )
 
 CONFIG["C11"] = dict(
-    lean_modules=["Props.C11"],
+    lean_modules=["Props.C11", "Props.C11Model"],
     generators=["C11"],
     level="proof",
     rule="both curves x keys {1, n-1, random} x messages x all 8 supported hashers: honest signature, twin (r,n-s), other message/key/hasher, r/s swapped, "
@@ -73,7 +73,10 @@ CONFIG["C11"] = dict(
     trusted_base=COMMON_TB + ["modelled, not verified: crypto/ecdsa, crypto/elliptic, btcec (that they compute the ECDSA equation is established by the correspondence run)"],
     technique="Lean 4 proof (decision logic of verification and format check) + differential run of ECDSA model vs real Verify",
     level_text="Theorems for every curve parameter set, key, hash and signature string: format check false implies verify false; a verifying signature is 64 bytes with 1<=r,s<n; only the leftmost 256 hash bits matter; guards tied to the extracted conditions. "
-               "Group-level facts over an abstract group of prime order with xc(-P)=xc(P): the (r,n-s) twin verifies iff (r,s) does; every signature made with a non-zero nonce verifies. That crypto/ecdsa and btcec compute this equation is the correspondence part.",
+               "Group-level facts over an abstract group of prime order with xc(-P)=xc(P): the (r,n-s) twin verifies iff (r,s) does; every signature made with a non-zero nonce verifies. "
+               "Executable model (Props.C11Model, Proofs/EcdsaModel over Proofs/CurveGroup): for P-256 and secp256k1, every private key d < n, nonce k < n and hash, a signature returned by the model's signWith is accepted by the model's verifyHash under d*G "
+               "(p256_sign_verify, k256_sign_verify): the model's curve arithmetic is Mathlib's group law of the curve, n is prime and annihilates G (kernel-checked), u1 + u2 d = k in ZMod n; non-vacuity example on secp256k1. "
+               "That crypto/ecdsa and btcec compute this equation is the correspondence part.",
     level_note="Lean kernel; the verification equation itself is the model (Model.Ecdsa.verifyHash) compared with crypto/ecdsa and btcec",
     assumptions=["hash bytes are produced by the real hashers (tied separately by C13)"],
 )
